@@ -133,7 +133,7 @@ def on_probe(p, r, exc, acc):
         acc.sample(dict(r, shown=got))
 
 
-TB_POSITIONS = ["expression", "code-block", "control-line", "def-body", "call-body", "call-body-of-a-def-in-another-template"]
+TB_POSITIONS = ["expression", "code-block", "control-line", "def-body", "call-body", "call-body-of-a-def-in-another-template", "strict-undefined-name"]
 TB_SOURCES = ["string", "string-with-uri", "file", "lookup", "module-file", "module-file-reload", "module-file-after-edit", "module-directory-through-symlink", "lookup-through-symlink"]
 
 
@@ -219,6 +219,8 @@ sys.exit(1 if bad else 0)
 
 def classify(c):
     i = c.get("input") or {}
+    if c["kind"] == "template-frame-on-construction-path" and i.get("tb_position") == "strict-undefined-name":
+        return "C12-strict-undefined-frame-line-zero"
     if c["kind"] != "warning-not-once-at-template-line":
         return None
     shown, want = [tuple(x) for x in i.get("shown", [])], tuple(i.get("expected", ()))
